@@ -32,6 +32,58 @@ func unhex(s string) []byte {
 	return b
 }
 
+// unhexWin: the input as a WINDOW of a larger live buffer - 8 guard bytes in front, and behind it
+// (inside the slice's capacity) bytes that would plausibly complete a token cut off at the end of the
+// window.  A function that looks or writes beyond len(data) - which Go permits by reslicing up to the
+// capacity - then behaves differently from the model (which has no capacity), or trips the guard check.
+type inputWindow struct {
+	whole, snap []byte
+	off, n      int
+}
+
+var inputWindows []inputWindow
+
+func completionFor(raw []byte) string {
+	tail := string(raw)
+	if len(tail) > 6 {
+		tail = tail[len(tail)-6:]
+	}
+	for _, c := range [][2]string{{"nul", "l"}, {"nu", "ll"}, {"n", "ull"}, {"tru", "e"}, {"tr", "ue"}, {"t", "rue"}, {"fals", "e"}, {"fal", "se"}, {"fa", "lse"}, {"f", "alse"},
+		{"\\u", "0041\""}, {"\\u0", "041\""}, {"\\u00", "41\""}, {"\\u004", "1\""}, {"\\ud83d", "\\ude00\""}, {"\\", "n\""}, {"e", "5"}, {"E", "5"}, {".", "5"}, {"-", "1"}, {"+", "1"},
+		{"[", "1]"}, {"{", "\"a\":1}"}, {":", "1}"}, {",", "1]"}, {"\"", "abc\""}} {
+		if strings.HasSuffix(tail, c[0]) {
+			return c[1] + " ]}\"ull"
+		}
+	}
+	if len(raw) > 0 && raw[len(raw)-1] >= '0' && raw[len(raw)-1] <= '9' {
+		return "5e1 ]}\""
+	}
+	return "\"]} null"
+}
+
+func unhexWin(s string) []byte {
+	raw := unhex(s)
+	cont := completionFor(raw)
+	whole := make([]byte, 0, 8+len(raw)+len(cont))
+	whole = append(whole, "\xa5\xa5\xa5\xa5\xa5\xa5\xa5\xa5"...)
+	whole = append(whole, raw...)
+	whole = append(whole, cont...)
+	inputWindows = append(inputWindows, inputWindow{whole: whole, snap: append([]byte{}, whole...), off: 8, n: len(raw)})
+	return whole[8 : 8+len(raw)] // capacity reaches over the continuation
+}
+
+// outside every input window nothing may have changed
+func windowsIntact() bool {
+	for _, w := range inputWindows {
+		for i := range w.whole {
+			if (i < w.off || i >= w.off+w.n) && w.whole[i] != w.snap[i] {
+				return false
+			}
+		}
+	}
+	return true
+}
+
 func hx(b []byte) string {
 	if len(b) == 0 {
 		return "-"
@@ -244,7 +296,7 @@ func runCase(f []string) string {
 	op := f[0]
 	switch op {
 	case "skip", "skipfast":
-		data := unhex(f[1])
+		data := unhexWin(f[1])
 		st := parseStack(f[2])
 		var p int
 		var err error
@@ -265,7 +317,7 @@ func runCase(f []string) string {
 		}
 		return okp(p, err)
 	case "valid":
-		data := unhex(f[1])
+		data := unhexWin(f[1])
 		st := parseStack(f[2])
 		var buf *rjson.Buffer
 		if st != nil {
@@ -274,7 +326,7 @@ func runCase(f []string) string {
 		}
 		return b2s(rjson.Valid(data, buf))
 	case "harr", "hobj":
-		data := unhex(f[1])
+		data := unhexWin(f[1])
 		s := newScript(f[2], data)
 		var buf *rjson.Buffer
 		if f[3] != "nobuf" {
@@ -291,18 +343,18 @@ func runCase(f []string) string {
 		}
 		return handlerObs(p, err, s, op == "hobj", len(data))
 	case "rnull":
-		data := unhex(f[1])
+		data := unhexWin(f[1])
 		p, err := rjson.ReadNull(data)
 		return okp(p, err)
 	case "rbool":
-		data := unhex(f[1])
+		data := unhexWin(f[1])
 		v, p, err := rjson.ReadBool(data)
 		if err != nil {
 			return "err"
 		}
 		return fmt.Sprintf("ok %s %d", b2s(v), p)
 	case "ntok":
-		data := unhex(f[1])
+		data := unhexWin(f[1])
 		t, p, err := rjson.NextToken(data)
 		switch {
 		case err == io.EOF:
@@ -312,7 +364,7 @@ func runCase(f []string) string {
 		}
 		return fmt.Sprintf("ok %d %d", t, p)
 	case "ntt":
-		data := unhex(f[1])
+		data := unhexWin(f[1])
 		t, p, err := rjson.NextTokenType(data)
 		switch {
 		case err == io.EOF:
@@ -322,43 +374,43 @@ func runCase(f []string) string {
 		}
 		return fmt.Sprintf("ok %d %d", t, p)
 	case "u64":
-		v, p, err := rjson.ReadUint64(unhex(f[1]))
+		v, p, err := rjson.ReadUint64(unhexWin(f[1]))
 		if err != nil {
 			return "err"
 		}
 		return fmt.Sprintf("ok %d %d", v, p)
 	case "u32":
-		v, p, err := rjson.ReadUint32(unhex(f[1]))
+		v, p, err := rjson.ReadUint32(unhexWin(f[1]))
 		if err != nil {
 			return "err"
 		}
 		return fmt.Sprintf("ok %d %d", v, p)
 	case "uint":
-		v, p, err := rjson.ReadUint(unhex(f[1]))
+		v, p, err := rjson.ReadUint(unhexWin(f[1]))
 		if err != nil {
 			return "err"
 		}
 		return fmt.Sprintf("ok %d %d", v, p)
 	case "i64":
-		v, p, err := rjson.ReadInt64(unhex(f[1]))
+		v, p, err := rjson.ReadInt64(unhexWin(f[1]))
 		if err != nil {
 			return "err"
 		}
 		return fmt.Sprintf("ok %d %d", v, p)
 	case "i32":
-		v, p, err := rjson.ReadInt32(unhex(f[1]))
+		v, p, err := rjson.ReadInt32(unhexWin(f[1]))
 		if err != nil {
 			return "err"
 		}
 		return fmt.Sprintf("ok %d %d", v, p)
 	case "int":
-		v, p, err := rjson.ReadInt(unhex(f[1]))
+		v, p, err := rjson.ReadInt(unhexWin(f[1]))
 		if err != nil {
 			return "err"
 		}
 		return fmt.Sprintf("ok %d %d", v, p)
 	case "rsb":
-		data, dst := unhex(f[1]), unhex(f[2])
+		data, dst := unhexWin(f[1]), unhex(f[2])
 		// give the destination some spare capacity variation: cap = len + f[3]
 		extra := 0
 		if len(f) > 3 {
@@ -372,7 +424,7 @@ func runCase(f []string) string {
 		}
 		return fmt.Sprintf("ok %d %s", p, hx(v))
 	case "rs":
-		data := unhex(f[1])
+		data := unhexWin(f[1])
 		var bufp *[]byte
 		if f[2] != "nil" {
 			b := unhex(f[2])
@@ -384,21 +436,21 @@ func runCase(f []string) string {
 		}
 		return fmt.Sprintf("ok %d %s", p, hx([]byte(v)))
 	case "usc":
-		data, dst := unhex(f[1]), unhex(f[2])
+		data, dst := unhexWin(f[1]), unhex(f[2])
 		v, p, err := rjson.UnescapeStringContent(data, dst)
 		if err != nil {
 			return "err"
 		}
 		return fmt.Sprintf("ok %d %s", p, hx(v))
 	case "aros":
-		data, dst := unhex(f[1]), unhex(f[2])
+		data, dst := unhexWin(f[1]), unhex(f[2])
 		v, p, err := rjson.VerifAppendRemainderOfString(data, dst)
 		if err != nil {
 			return "err"
 		}
 		return fmt.Sprintf("ok %d %s", p, hx(v))
 	case "sfd", "sfe":
-		data := unhex(f[1])
+		data := unhexWin(f[1])
 		p0, _ := strconv.Atoi(f[2])
 		var p int
 		var err error
@@ -409,15 +461,15 @@ func runCase(f []string) string {
 		}
 		return fmt.Sprintf("%d %s", p, b2s(err == nil))
 	case "getu4":
-		return strconv.Itoa(int(rjson.VerifGetu4(unhex(f[1]))))
+		return strconv.Itoa(int(rjson.VerifGetu4(unhexWin(f[1]))))
 	case "uuc":
-		s, dst := unhex(f[1]), unhex(f[2])
+		s, dst := unhexWin(f[1]), unhex(f[2])
 		r, n, ok := rjson.VerifUnescapeUnicodeChar(s, dst)
 		return fmt.Sprintf("%s %d %s", hx(r), n, b2s(ok))
 	case "dec":
 		return runDecode(f)
 	case "f64":
-		v, p, err := rjson.ReadFloat64(unhex(f[1]))
+		v, p, err := rjson.ReadFloat64(unhexWin(f[1]))
 		if err != nil {
 			return "err"
 		}
@@ -509,7 +561,12 @@ func runOne(line string) (obs string) {
 				done <- "abn # panic: " + strings.ReplaceAll(msg, "\n", " ")
 			}
 		}()
-		done <- runCase(f)
+		inputWindows = inputWindows[:0]
+		res := runCase(f)
+		if !windowsIntact() {
+			res = "abn # bytes outside the input slice (inside its capacity, or in front of it) were modified; result was: " + res
+		}
+		done <- res
 	}()
 	// watchdog: 20 s for the first case that does not return, 2 s for later ones, and after 25 such
 	// cases the rest of the file is not run (a code change that deadlocks or loops would otherwise
